@@ -78,6 +78,8 @@ type fmp4AugmentedSample struct {
 }
 
 type muxerSegmenterParent interface {
+	lockParams()
+	unlockParams()
 	createFirstSegment(nextDTS time.Duration, nextNTP time.Time) error
 	rotateSegments(nextDTS time.Duration, nextNTP time.Time, force bool) error
 	rotateParts(nextDTS time.Duration) error
@@ -122,7 +124,9 @@ func (s *muxerSegmenter) writeAV1(
 
 			if !bytes.Equal(codec.SequenceHeader, obu) {
 				s.pendingParamsChange = true
+				s.parent.lockParams()
 				codec.SequenceHeader = obu
+				s.parent.unlockParams()
 			}
 		}
 	}
@@ -176,6 +180,7 @@ func (s *muxerSegmenter) writeVP9(
 	if !h.NonKeyFrame {
 		randomAccess = true
 
+		s.parent.lockParams()
 		if v := h.Width(); v != codec.Width {
 			s.pendingParamsChange = true
 			codec.Width = v
@@ -200,6 +205,7 @@ func (s *muxerSegmenter) writeVP9(
 			s.pendingParamsChange = true
 			codec.ColorRange = h.ColorConfig.ColorRange
 		}
+		s.parent.unlockParams()
 	}
 
 	paramsChanged := false
@@ -239,6 +245,7 @@ func (s *muxerSegmenter) writeH265(
 	randomAccess := false
 	codec := track.Codec.(*codecs.H265)
 
+	s.parent.lockParams()
 	for _, nalu := range au {
 		typ := h265.NALUType((nalu[0] >> 1) & 0b111111)
 
@@ -265,6 +272,7 @@ func (s *muxerSegmenter) writeH265(
 			}
 		}
 	}
+	s.parent.unlockParams()
 
 	paramsChanged := false
 	if randomAccess && s.pendingParamsChange {
@@ -317,6 +325,7 @@ func (s *muxerSegmenter) writeH264(
 	codec := track.Codec.(*codecs.H264)
 	nonIDRPresent := false
 
+	s.parent.lockParams()
 	for _, nalu := range au {
 		typ := h264.NALUType(nalu[0] & 0x1F)
 
@@ -340,6 +349,7 @@ func (s *muxerSegmenter) writeH264(
 			}
 		}
 	}
+	s.parent.unlockParams()
 
 	if !randomAccess && !nonIDRPresent {
 		return nil
